@@ -13,7 +13,7 @@ import (
 func init() {
 	reg("C18", Meta{
 		Technique:   "error-propagation rule + targeted lints on SSA (deferred overwrite of a named error result, callback under range-over-map), bad-edge reachability for the stop flag, sibling agreement of the value codec",
-		Explanation: "C18 (state stores), structural clauses checked on both implementations (statestore/leveldb, statestore/mock): (E1) on the edge where the iteration callback returned a non-nil error every reachable return hands back that very error; (L0) no deferred closure in the store packages overwrites a named error result unless behind `err == nil`; (L1) the callback is never invoked from a loop that ranges over a Go map (the contract is ascending byte order); (G1) once the callback asked to stop, it is not invoked again; (A1) Put and Get of both stores use the same codec choice (BinaryMarshaler/Unmarshaler, else JSON). Not decided: value round-trip equality, exact key set of prefix iteration, persistence across reopen (driver behaviour).",
+		Explanation: "C18 (state stores), structural clauses checked on both implementations (statestore/leveldb, statestore/mock): (E1) no path leaves the callback invocation with a possibly non-nil error — i.e. without crossing the `err == nil` edge — except by returning that very error: neither the next iteration nor a return of anything else (so testing the stop flag before the error is a violation); (L0) no deferred closure in the store packages overwrites a named error result unless behind `err == nil`; (L1) the callback is never invoked from a loop that ranges over a Go map (the contract is ascending byte order); (G1) once the callback asked to stop, it is not invoked again; (A1) Put and Get of both stores use the same codec choice (BinaryMarshaler/Unmarshaler, else JSON). Not decided: value round-trip equality, exact key set of prefix iteration, persistence across reopen (driver behaviour).",
 		Assumptions: []string{"shed driver iterators return keys in ascending byte order (goleveldb contract)"},
 	}, c18)
 }
@@ -128,31 +128,7 @@ func c18(r *core.Run) {
 		for _, c := range calls {
 			c := c
 			// E1
-			_, errEdges := core.AtomEdges(fn, core.ErrNilAtom(func(x *ssa.Call) bool { return x == c }))
-			ok := len(errEdges) > 0
-			detail := "the callback's error is never tested"
-			var start []*ssa.BasicBlock
-			for e := range errEdges {
-				start = append(start, e.To)
-			}
-			reach := core.ReachBlocks(start, nil)
-			nret := 0
-			for b := range reach {
-				ret, isRet := b.Instrs[len(b.Instrs)-1].(*ssa.Return)
-				if !isRet {
-					continue
-				}
-				nret++
-				res := ret.Results[len(ret.Results)-1]
-				if cc, idx := core.CallOf(res); cc != c || idx != 1 {
-					ok = false
-					detail = "a return reachable after the callback failed does not return the callback's error"
-				}
-			}
-			if nret == 0 {
-				ok = false
-				detail = "no return is reachable from the callback-error edge"
-			}
+			ok, detail := errMustSurface(fn, c)
 			r.Check("C18.E1", core.Key("C18.E1", fn, "callback error returned"), c.Pos(), ok,
 				"the error returned by the iteration callback is what Iterate returns", detail)
 
